@@ -498,6 +498,7 @@ static void server_request_free_answers(struct server_request *req);
 static void server_port_free(struct evdns_server_port *port);
 static void server_port_ready_callback(evutil_socket_t fd, short events, void *arg);
 static int evdns_base_resolv_conf_parse_impl(struct evdns_base *base, int flags, const char *const filename);
+static void nameserver_write_waiting(struct nameserver *ns, char waiting);
 static int evdns_base_set_option_impl(struct evdns_base *base,
     const char *option, const char *val, int flags);
 static void evdns_base_free_and_unlock(struct evdns_base *base, int fail_requests);
@@ -891,11 +892,12 @@ request_finished(struct request *const req, struct request **head, int free_hand
 	if (req->ns &&
 	    req->ns->requests_inflight == 0 &&
 	    req->base->disable_when_inactive) {
-		event_del(&req->ns->event);
-		evtimer_del(&req->ns->timeout_event);
 		/* Nothing is left to be written, and with the event gone
 		 * nobody would tell us that the socket is writable again. */
 		req->ns->choked = 0;
+		nameserver_write_waiting(req->ns, 0);
+		event_del(&req->ns->event);
+		evtimer_del(&req->ns->timeout_event);
 	}
 
 	if (!req->request_appended) {
